@@ -57,12 +57,36 @@ type Getter struct {
 	HeadCall int
 	ByHeight map[uint64]H // GetByHeight (bifurcation); missing = error
 	ByHLog   []uint64
+
+	headPark bool          // the next Head() call parks (a slow network head request) until ReleaseHead
+	headGate chan struct{} // non-nil while a Head() call is parked
+
+	// CancelAt = k > 0: the k-th GetByHeight call from now on calls Cancel right before it returns, i.e. the
+	// caller's context ends between that bifurcation round and the next
+	CancelAt int
+	Cancel   func()
+	byHCalls int
 }
 
 func NewGetter() *Getter { return &Getter{ByHeight: map[uint64]H{}} }
 
 func (g *Getter) Head(ctx context.Context, _ ...header.HeadOption[H]) (H, error) {
 	g.mu.Lock()
+	if g.headPark {
+		// the request is on its way: the answer is fixed now, but arrives only when the driver releases it
+		g.headPark = false
+		gate := make(chan struct{})
+		g.headGate = gate
+		h := g.headAns
+		g.headAns = nil
+		g.HeadCall++
+		g.mu.Unlock()
+		<-gate
+		if h == nil {
+			return nil, ErrScripted
+		}
+		return h, nil
+	}
 	defer g.mu.Unlock()
 	g.HeadCall++
 	if g.headAns == nil {
@@ -71,6 +95,38 @@ func (g *Getter) Head(ctx context.Context, _ ...header.HeadOption[H]) (H, error)
 	h := g.headAns
 	g.headAns = nil
 	return h, nil
+}
+
+// ParkNextHead makes the next Head() call (which takes its scripted answer at once) wait until ReleaseHead.
+func (g *Getter) ParkNextHead() {
+	g.mu.Lock()
+	g.headPark = true
+	g.mu.Unlock()
+}
+
+func (g *Getter) HeadParked() bool {
+	g.mu.Lock()
+	defer g.mu.Unlock()
+	return g.headGate != nil
+}
+
+func (g *Getter) ReleaseHead() bool {
+	g.mu.Lock()
+	gate := g.headGate
+	g.headGate = nil
+	g.mu.Unlock()
+	if gate == nil {
+		return false
+	}
+	close(gate)
+	return true
+}
+
+// ArmCancel scripts the context of the coming verifier call to end right after the k-th GetByHeight answer.
+func (g *Getter) ArmCancel(k int, cancel func()) {
+	g.mu.Lock()
+	g.CancelAt, g.Cancel, g.byHCalls = k, cancel, 0
+	g.mu.Unlock()
 }
 
 // SetHeadAnswer scripts the answer of the next Head() call (consumed by it).
@@ -82,10 +138,17 @@ func (g *Getter) SetHeadAnswer(h H) {
 
 func (g *Getter) Get(context.Context, header.Hash) (H, error) { return nil, ErrScripted }
 
-func (g *Getter) GetByHeight(_ context.Context, n uint64) (H, error) {
+func (g *Getter) GetByHeight(ctx context.Context, n uint64) (H, error) {
 	g.mu.Lock()
 	defer g.mu.Unlock()
+	if err := ctx.Err(); err != nil {
+		return nil, err
+	}
 	g.ByHLog = append(g.ByHLog, n)
+	g.byHCalls++
+	if g.CancelAt > 0 && g.byHCalls == g.CancelAt && g.Cancel != nil {
+		g.Cancel()
+	}
 	if h, ok := g.ByHeight[n]; ok {
 		return h, nil
 	}
@@ -231,6 +294,7 @@ type Fixture struct {
 	Chain   []H // the true chain above it
 	Tail    uint64
 	results []chan error
+	cancels []context.CancelFunc
 	Results []int // per learner call: 0 running, 1 nil, 2 error
 }
 
@@ -287,7 +351,13 @@ func NewFixture(tail uint64, nInit, nChain int, batch int) (*Fixture, error) {
 
 // Close stops everything so that the bubble can end.
 func (f *Fixture) Close() {
+	f.Getter.ReleaseHead()
 	f.Store.ReleaseAll()
+	defer func() {
+		for _, c := range f.cancels {
+			c()
+		}
+	}()
 	ctx, cancel := context.WithTimeout(context.Background(), time.Minute)
 	defer cancel()
 	_ = f.Syncer.Stop(ctx)
@@ -320,16 +390,39 @@ func (f *Fixture) Top() uint64 { return f.Tail + uint64(len(f.Init)+len(f.Chain)
 
 // Deliver calls the captured verifier with h in its own goroutine and lets the
 // bubble settle. Returns the learner call number.
-func (f *Fixture) Deliver(h H) int {
+func (f *Fixture) Deliver(h H) int { return f.DeliverCancel(h, 0) }
+
+// DeliverCancel is Deliver with a validation context that ends right after the cancelAt-th GetByHeight
+// answer of the call (0 = never): between two bifurcation rounds.
+func (f *Fixture) DeliverCancel(h H, cancelAt int) int {
 	i := len(f.results)
 	ch := make(chan error, 1)
 	f.results = append(f.results, ch)
 	f.Results = append(f.Results, 0)
-	ctx := WithWho(context.Background(), i)
+	ctx, cancel := context.WithCancel(WithWho(context.Background(), i))
+	f.cancels = append(f.cancels, cancel)
+	f.Getter.ArmCancel(cancelAt, cancel)
 	go func() { ch <- f.Sub.Verifier(ctx, h) }()
 	synctest.Wait()
+	f.Getter.ArmCancel(0, nil)
 	f.Poll()
 	return i
+}
+
+// HeadCallP is HeadCall with a slow network head request: it is parked inside getter.Head (after Head() captured
+// its subjective head) until ReleaseHead; ans is what the getter answers then.
+func (f *Fixture) HeadCallP(ans H) int {
+	f.Getter.ParkNextHead()
+	return f.HeadCall(ans)
+}
+
+func (f *Fixture) ReleaseHead() bool {
+	if !f.Getter.ReleaseHead() {
+		return false
+	}
+	synctest.Wait()
+	f.Poll()
+	return true
 }
 
 // HeadCall calls Syncer.Head() with the getter answering ans, in its own goroutine.
@@ -375,6 +468,7 @@ type Obs struct {
 	ID, From, To, StateHeight uint64
 	Err                       bool
 	Req                       *[2]uint64
+	HeadID                    uint64 // hash identity of the header the real Store serves at its head height
 }
 
 func (f *Fixture) Observe(ret int) Obs {
@@ -384,6 +478,11 @@ func (f *Fixture) Observe(ret int) Obs {
 	o := Obs{Ret: ret}
 	if h, err := f.Store.Store.Head(ctx); err == nil {
 		o.Head = h.Height()
+		o.HeadID = f.Reg.ID(h.Hash())
+		// what the Store serves at that height (not the head pointer it keeps in memory)
+		if at, err := f.Store.Store.GetByHeight(ctx, o.Head); err == nil && at != nil {
+			o.HeadID = f.Reg.ID(at.Hash())
+		}
 	}
 	f.Getter.SetHeadAnswer(nil)
 	if h, err := f.Syncer.Head(ctx); err == nil && h != nil {
@@ -404,7 +503,7 @@ func (o Obs) Term() string {
 	if o.Req != nil {
 		req = fmt.Sprintf("(Some (%d, %d))", o.Req[0], o.Req[1])
 	}
-	return fmt.Sprintf("(Obs %d %d %d %d %d %d %d %s %d %s)", o.Ret, o.Head, o.Local, o.LocalID, o.ID, o.From, o.To, emit.B(o.Err), o.StateHeight, req)
+	return fmt.Sprintf("(Obs %d %d %d %d %d %d %d %s %d %s %d)", o.Ret, o.Head, o.Local, o.LocalID, o.ID, o.From, o.To, emit.B(o.Err), o.StateHeight, req, o.HeadID)
 }
 
 // SyncWaitReturns reports whether SyncWait returns nil within a short virtual deadline.
